@@ -1,4 +1,5 @@
 import St4sd.Model.Validate
+import St4sd.Model.ValidateLoop
 import St4sd.Gen.C11
 /-!
 # C11 â€” witnesses for the code as it was before `fixes/C11-bool-options.diff`
@@ -84,5 +85,41 @@ theorem float_fails_int_rule : check intRule (.float 2 true) = [.valueInvalid] â
     check intRule (.float 3 false) = [.valueInvalid] := by decide
 /-- the conversion of the model (= of the source) does not touch it -/
 theorem model_conversion_keeps_float : convert (.leaf .int) (.float 2 true) = some (.float 2 true) := rfl
+
+/-! ## a binding value that names the importing entry (known finding C11-binding-to-import-entry)
+
+`package_document_load` compares the binding values of a `$import` entry with a set of identifiers that contains
+the `$import` entries themselves; `instantiate_dowhile_next_iteration` compares them with the components of the
+graph.  When no looped component reads the binding, nothing of iteration 0 carries the dangling name: the package
+loads, and the instantiation of iteration 1 raises `FlowIRReferenceToUnknownComponent`. -/
+
+/-- `ca` (stage 0) feeds the loop imported as `stage1.loop0`; the second input binding `in1`, read by nobody, is
+bound to the entry itself -/
+def selfBound : Package :=
+  { main := { comps := [{ stage := 0, name := "ca".toList, refs := [], argRefs := [], opts := .dict [], vars := [],
+                          uses := [] }], globals := [] },
+    loops := [{ stage := 1, name := "loop0".toList, inputs := ["in0".toList, "in1".toList],
+                bindings := [("in0".toList, (0, "ca".toList)), ("in1".toList, (1, "loop0".toList))],
+                loopBindings := [], cond := (0, "la".toList),
+                comps := [{ stage := 0, name := "la".toList, refs := [(0, "in0".toList)], opts := .dict [],
+                            vars := [], uses := [] }] }] }
+
+/-- the code as it is accepts the package â€¦ -/
+theorem asis_accepts_binding_to_import_entry :
+    validateP Gen.C11.convTable Gen.C11.componentSchema selfBound = [] := by decide +kernel
+
+/-- â€¦ and the binding check of the next iteration fails -/
+theorem asis_next_iteration_raises :
+    nextBindingErrors selfBound selfBound.loops.head! 0
+      = [.bindingUnknown "in1".toList (1, "loop0".toList)] := by decide +kernel
+
+/-- the hypothesis of `next_iteration_bindings_known_partial` excludes exactly this -/
+theorem selfBound_violates_hypothesis : bindingsAvoidImportEntries selfBound selfBound.loops.head! = false := by
+  decide +kernel
+
+/-- the repaired load-time check reports the binding -/
+theorem repaired_rejects_binding_to_import_entry :
+    validatePFixed Gen.C11.convTable Gen.C11.componentSchema selfBound
+      = [.loop (1, "loop0".toList) (.bindingUnknown "in1".toList (1, "loop0".toList))] := by decide +kernel
 
 end St4sd.C11.Witness
